@@ -155,9 +155,10 @@ def run(ctx, R, tier):
         def is_kind(atom, pol, kind=kind):
             if pol is not True:
                 return False
-            if isinstance(atom, ast.Compare) and len(atom.ops) == 1 and isinstance(atom.ops[0], (ast.Is, ast.Eq)) and unparse(atom.comparators[0]) == kind and \
-                    (unparse(atom.left) in tvars or unparse(atom.left) == "type(%s)" % lit):
-                return True
+            if isinstance(atom, ast.Compare) and len(atom.ops) == 1 and isinstance(atom.ops[0], (ast.Is, ast.Eq)):
+                for a_, b_ in ((atom.left, atom.comparators[0]), (atom.comparators[0], atom.left)):     # symmetric: either operand order
+                    if unparse(b_) == kind and (unparse(a_) in tvars or unparse(a_) == "type(%s)" % lit):
+                        return True
             return isinstance(atom, ast.Call) and unparse(atom.func) == "isinstance" and unparse(atom.args[0]) == lit and kind in unparse(atom.args[1])
         ok = any(rccfg.guarded(n, lambda e: edge_has_fact(e, is_kind)) for n in rec_nodes)
         R.check(ok, "C01-R5", "recreate_classes|%s" % kind, "class-tagged values nested in a %s are re-created" % kind, rc.loc(),
